@@ -1,7 +1,8 @@
 ----------------------------- MODULE MCFetchLog -----------------------------
 EXTENDS FetchLog
 
-B(base, last, present, fmt) == [base |-> base, last |-> last, present |-> present, fmt |-> fmt]
+B(base, last, present, fmt) == [base |-> base, last |-> last, present |-> present, fmt |-> fmt, comp |-> FALSE]
+BC(base, last, present) == [base |-> base, last |-> last, present |-> present, fmt |-> "v2", comp |-> TRUE]
 
 \* holes inside a batch, a batch starting before the requested offset
 L1 == << B(0, 2, {0, 1, 2}, "v2"), B(3, 5, {3, 5}, "v2") >>
@@ -11,6 +12,8 @@ L2 == << B(0, 3, {0, 1}, "v2"), B(4, 5, {}, "v2"), B(6, 7, {6, 7}, "v2") >>
 L3 == << B(0, 2, {0, 2}, "v1w"), B(3, 3, {3}, "v1"), B(4, 4, {4}, "v1"), B(5, 6, {5, 6}, "v2") >>
 \* everything compacted away at the end of the log
 L4 == << B(0, 1, {0, 1}, "v2"), B(2, 4, {}, "v2") >>
+\* compressed batches, one with a compacted tail
+L5 == << BC(0, 2, {0, 1}), BC(3, 5, {3, 4, 5}), B(6, 7, {7}, "v2") >>
 
 Base == [log |-> L1, logStart |-> 0, hw |-> 6, start |-> -2, qcap |-> 1, maxFaults |-> 2,
          setOffsets |-> 1, setTargets |-> {1, 4}, bug |-> "none"]
@@ -23,7 +26,8 @@ Configs ==
     [Base EXCEPT !.log = L3, !.hw = 7, !.setTargets = {1}],
     [Base EXCEPT !.log = L3, !.hw = 7, !.start = 1, !.logStart = 1, !.setOffsets = 0],
     [Base EXCEPT !.log = L4, !.hw = 5, !.setTargets = {-1, 3}],
-    [Base EXCEPT !.log = L1, !.start = -1, !.setTargets = {-2}] }
+    [Base EXCEPT !.log = L1, !.start = -1, !.setTargets = {-2}],
+    [Base EXCEPT !.log = L5, !.hw = 8, !.setTargets = {2}] }
 ConfigsQuick == { Base, [Base EXCEPT !.log = L2, !.hw = 8, !.start = 3, !.setOffsets = 0],
                   [Base EXCEPT !.log = L3, !.hw = 7, !.setTargets = {1}] }
 
